@@ -257,3 +257,71 @@ def np_delete(ex, st, args, kwargs, node):
         i = _i("di")
         return _out(ty.SeqV(v.elem, [z3.Lambda([i], z3.If(i < p, ty.sel(a, i), ty.sel(a, i + 1))) for a in v.arrs], v.len - 1), st)
     raise _U(f"np.delete({v!r}, axis={axis!r})", node)
+
+
+def mat_sum_axis0(m: ty.MatV):
+    """M.sum(axis=0): column sums"""
+    i, t = _i("si"), _i("st")
+    return ty.SeqV(ty.Real, [z3.Lambda([t], SUM(z3.Lambda([i], ty.sel(m.arr, i, t)), m.rows))], m.cols)
+
+
+def nd_sum(ex, st, recv, args, kwargs, node):
+    axis = kwargs.get("axis", args[0] if args else None)
+    if isinstance(recv, ty.MatV) and axis == 0:
+        return _out(mat_sum_axis0(recv), st)
+    if isinstance(recv, ty.SeqV) and axis in (None, 0):
+        return np_sum(ex, st, [recv], {}, node)
+    raise _U(f"ndarray.sum(axis={axis!r}) of {recv!r}", node)
+
+
+def nd_dot(ex, st, recv, args, kwargs, node):
+    from . import cplx
+    return _out(cplx.matmul(ex, st, recv, args[0], node), st)
+
+
+MAXF = z3.Function("seq_max", z3.ArraySort(z3.IntSort(), z3.RealSort()), z3.IntSort(), z3.RealSort())      # max of a[0..n-1], n >= 1
+
+
+def seq_max_term(ex, st, arr, n):
+    """max(a[0..n-1]) as a canonical term with its two defining facts (upper bound, attained)"""
+    m = MAXF(arr, n)
+    k, w = _i("mk"), z3.Int(ty.fresh_name("argmax"))
+    st.assume(ty.FA([k], z3.Implies(z3.And(k >= 0, k < n), ty.sel(arr, k) <= m)))
+    st.assume(z3.Implies(n >= 1, z3.And(w >= 0, w < n, ty.sel(arr, w) == m)))
+    return m
+
+
+def np_max(ex, st, args, kwargs, node):
+    v = args[0]
+    axis = kwargs.get("axis", args[1] if len(args) > 1 else None)
+    from .cplx import seq_real_arr
+    if isinstance(v, ty.SeqV) and axis in (None, 0):
+        ex.safety(st, "np.max-of-empty-array", v.len >= 1, node)
+        return _out(seq_max_term(ex, st, seq_real_arr(v), v.len), st)
+    if isinstance(v, ty.MatV) and axis == 0:
+        ex.safety(st, "np.max-of-empty-array", v.rows >= 1, node)
+        i, t = _i("xi"), _i("xt")
+        col = lambda tt: z3.Lambda([i], ty.sel(v.arr, i, tt))
+        k = _i("mk")
+        # per column: canonical max term; defining facts quantified over the columns
+        st.assume(ty.FA([t, k], z3.Implies(z3.And(t >= 0, t < v.cols, k >= 0, k < v.rows), ty.sel(v.arr, k, t) <= MAXF(col(t), v.rows))))
+        w = z3.Function(ty.fresh_name("argmax"), z3.IntSort(), z3.IntSort())
+        st.assume(ty.FA([t], z3.Implies(z3.And(t >= 0, t < v.cols), z3.And(w(t) >= 0, w(t) < v.rows, ty.sel(v.arr, w(t), t) == MAXF(col(t), v.rows)))))
+        return _out(ty.SeqV(ty.Real, [z3.Lambda([t], MAXF(col(t), v.rows))], v.cols), st)
+    raise _U(f"np.max({v!r}, axis={axis!r})", node)
+
+
+def np_mean(ex, st, args, kwargs, node):
+    v = args[0]
+    axis = kwargs.get("axis", args[1] if len(args) > 1 else None)
+    if isinstance(v, ty.MatV) and axis == 0:
+        ex.safety(st, "np.mean-of-empty-array", v.rows >= 1, node)
+        s_ = mat_sum_axis0(v)
+        t = _i("mt")
+        return _out(ty.SeqV(ty.Real, [z3.Lambda([t], ty.sel(s_.arrs[0], t) / z3.ToReal(v.rows))], v.cols), st)
+    raise _U(f"np.mean({v!r}, axis={axis!r})", node)
+
+
+def np_vstack(ex, st, args, kwargs, node):
+    from . import cplx
+    return cplx.np_stack(ex, st, args, kwargs, node)
